@@ -21,6 +21,8 @@ int main(int argc, char** argv) {
     else if (!strcmp(argv[i], "--rounds") && i + 1 < argc) rounds = atoi(argv[++i]);
     else if (!strcmp(argv[i], "--c18") && i + 1 < argc) c18pat = argv[++i];
     else if (!strcmp(argv[i], "--step") && i + 1 < argc) c18step = atol(argv[++i]);
+    else if (!strcmp(argv[i], "--midclock")) c18_midclock = 1;
+    else if (!strcmp(argv[i], "--gentle")) { c18_midclock = 1; c18_gentle = 1; }
     else if (!strcmp(argv[i], "--fault") && i + 1 < argc) fault_at = atol(argv[++i]);
     else if (!strcmp(argv[i], "--persist")) fault_persist = 1;
     else if (!strcmp(argv[i], "--kind") && i + 1 < argc) fault_kind = atoi(argv[++i]);
@@ -48,6 +50,7 @@ int main(int argc, char** argv) {
   else if (!strcmp(profile, "c10")) { w_heap = 20; w_query = 15; w_alloc = 35; w_free = 15; w_realloc = 8; }
   else if (!strcmp(profile, "c06")) { w_bad = 40; w_alloc = 30; w_free = 20; w_realloc = 8; w_visit = 4; }
   else if (!strcmp(profile, "c15")) { w_alloc = 55; w_free = 25; w_realloc = 8; w_heap = 3; w_query = 3; w_visit = 2; max_size = 6u << 20; }
+  else if (!strcmp(profile, "big")) { w_alloc = 45; w_free = 35; w_realloc = 6; w_collect = 8; w_visit = 2; w_heap = 2; big_sizes = 1; }
   else if (!strcmp(profile, "bulk")) { w_bulk = 14; w_alloc = 35; w_free = 30; w_realloc = 6; w_visit = 3; w_collect = 4; w_heap = 0; max_size = 200000; }
   else if (!strcmp(profile, "c12")) { w_visit = 12; w_heap = 8; w_collect = 2; w_alloc = 40; w_free = 30; }
   else { fprintf(stderr, "unknown profile %s\n", profile); return 2; }
